@@ -61,6 +61,7 @@ def random_cards(rng):
     c["inversion_method"] = rng.choice([None, "exact", "expanded"])
     c["polarized"] = rng.random() < 0.3
     c["time_like"] = rng.random() < 0.3
+    c["interpolation_is_log"] = rng.random() < 0.7     # the grid follows the declared mode: log flag on or off
     return runcards.TheoryCard.from_dict(th), runcards.OperatorCard.from_dict(op), len(xg)
 
 
@@ -84,7 +85,7 @@ def random_op(nrng, nx, with_err):
 
 def make_key(rng, base_nf=None):
     nf = base_nf or rng.choice([3, 4, 5, 6])
-    kind = rng.choice(["py", "np", "int", "np32"])
+    kind = rng.choice(["py", "np", "int", "np32", "npnf"])
     if kind == "int":
         return (rng.randrange(2, 10**6), nf), kind
     s = rng.uniform(1.0, 1e6)
@@ -92,12 +93,15 @@ def make_key(rng, base_nf=None):
         return (np.float64(s), nf), kind
     if kind == "np32":
         return (np.float32(s), np.int64(nf)), kind
+    if kind == "npnf":
+        return (s, rng.choice([np.int64, np.int32])(nf)), kind
     return (s, nf), kind
 
 
 def read_phase(path, theory, operator, version, expect):
     """Re-read the archive; compare with `expect` = {idx: ((scale, nf), Operator)}."""
     from eko.io.struct import EKO
+    from eko.version import __data_version__
 
     out = {"exc": "", "expect": sorted(expect), "got": [], "same": [], "unknown": 0,
            "theoryEq": False, "operatorEq": False, "metaEq": False}
@@ -117,13 +121,16 @@ def read_phase(path, theory, operator, version, expect):
                 if got is not None and bits_eq(got.operator, op.operator) and bits_eq(got.error, op.error):
                     out["same"].append(i)
             out["theoryEq"] = deep_eq(eko.theory_card, theory)
-            out["operatorEq"] = deep_eq(eko.operator_card, operator)
+            # (the library's == of two grids compares the nodes only: the interpolation mode is compared here)
+            out["operatorEq"] = deep_eq(eko.operator_card, operator) and bool(eko.operator_card.xgrid.log) == bool(operator.xgrid.log)
             md = eko.metadata
             out["metaEq"] = bool(
                 md.version == version
                 and float(md.origin[0]) == float(operator.init[0] ** 2)
                 and int(md.origin[1]) == int(operator.init[1])
                 and np.array_equal(md.xgrid.raw, operator.xgrid.raw)
+                and bool(md.xgrid.log) == bool(operator.xgrid.log)
+                and md.data_version == __data_version__
             )
     except Exception as ex:  # noqa: BLE001
         out["exc"] = type(ex).__name__
